@@ -21,7 +21,8 @@ What is demanded of a decoder (statement + docstrings):
            key  strict:<decoder>:<class>-accepted
            + the direct members a container decoder has to split itself (DerSequence / DerSetOf)      member-<class>-accepted
            + documented arguments: nr_elements / only_ints_expected                                   member-count-accepted
-           + members beyond the ASN.1 schema of a key structure (bytes trailing the defined fields)    extra-member-accepted
+           + members beyond the ASN.1 schema of a key structure (bytes trailing the defined fields)    extra-member-accepted,
+                                                                                                      encrypted-container-extra-member-accepted
            + PEM: BEGIN/END labels differ, boundary line missing, encrypted block without passphrase  pem-...-accepted
   strictmode (separate key family, see DECISIONS): Der*.decode(strict=True) is documented to "check for strict DER
            compliancy": accepting an encoding whose own content octets are not DER     strictmode:<decoder>:<kind>-accepted
@@ -216,6 +217,8 @@ def enc_case(ctx, typ, desc, make, new_decoder, get, value, expected, mode=None,
     else:
         enc = bytes(o[1])
         ctx.check(enc == expected, "encode:%s:bytes-differ" % typ, "%s.encode is not the canonical DER encoding of the value" % typ, lambda: W(got=_hx(enc)))
+        if mode is not None and len(expected) < 40 and len(ctx.samples) < 3:
+            ctx.sample(W(got=_hx(enc)))
     for data in ([expected] if enc in (None, expected) else [expected, enc]):
         for strict in strict_modes:
             def dec():
